@@ -83,4 +83,11 @@ lemma iid_ofFn_eq_sum {n : ℕ} (comp : RExpr) (x a b : Fin n → ℝ) :
   unfold iid
   rw [sumTo_eq_sum, bcLen_ofFn3, Finset.sum_range]
 
+lemma bc_short (v : List ℚ) (hv : v.length ≤ 1) (j : ℕ) : bc (0:ℚ) v j = bc 0 v 0 := by
+  unfold bc
+  split_ifs with h
+  · rfl
+  · have : v = [] := List.eq_nil_of_length_eq_zero (by omega)
+    subst this; simp
+
 end CuqiVerif.C04
